@@ -34,12 +34,12 @@ add("C06", "proof",
     "Lean 4 refinement proofs of a hand-written state machine + exhaustive history enumeration against the implementation", "DESIGN.md §6 C06")
 
 add("C02", "proof",
-    "Theorem PQ.C02.file_valid, the property's full statement over the model: for every field forest, every Add/Write/Close history, page size >= 1 and codec with a correct decompressor, the independent parser/validator PQ.parseFile (written from the specification: magic, footer, thrift, schema tree, offsets, sizes, counts, codec, page record limits and boundaries, exact section lengths) accepts the writer model's bytes and finds exactly the written records per row group (parseFile_runWriter_records composed with schema_valid); hypotheses: records are Dremel-striped, nesting <= 15, sizes below the format's 32-bit fields. Tie: the writer model's bytes equal the implementation's exactly on seven structs (incl. nesting 9 deep and same-named groups at different depths) and the validator is evaluated on every file the implementation writes.",
+    "Theorem PQ.C02.file_valid, the property's full statement over the model: for every field forest, every Add/Write/Close history, page size >= 1 and codec with a correct decompressor, the independent parser/validator PQ.parseFile (written from the specification: magic, footer, thrift, schema tree, offsets, sizes, counts, codec, page record limits and boundaries, exact section lengths) accepts the writer model's bytes and finds exactly the written records per row group (parseFile_runWriter_records composed with schema_valid); hypotheses: records are Dremel-striped, nesting <= 15, sizes below the format's 32-bit fields. Tie: the writer model's bytes equal the implementation's exactly on ten structs (incl. nesting 9 deep and same-named groups at different depths) and the validator is evaluated on every file the implementation writes.",
     PROOF_NOTE,
     "Lean 4 layer theorems + independent validator as executable oracle + exact byte correspondence", "DESIGN.md §6 C02")
 
 add("C01", "proof",
-    "Theorem PQ.C01.roundtrip, the property's full statement over the models: for every field forest, history, page size >= 1 and codec with a correct decompressor, the reader model applied to the writer model's bytes reports Rows() = number of written records, Next() true exactly that many times, every Scan delivering the record's per-column entries (hence its projection), Error() nil (readAll_runWriter composed with schema_valid; extra hypothesis: joined column names pairwise distinct); layer theorems (levels, records, header, values incl. multi-page booleans, page, chunk). Tie: exact writer bytes and exact reader results on structurally enumerated and boundary-valued records of seven structs, partitions around page boundaries, page sizes, three codecs, single pages beyond 32 KiB, level streams of hundreds of values at every width, a 70 000-byte string. The two aliasing clauses are runtime facts explored by the harness only (mutation after Add, scanned records re-checked after later reads): partial.",
+    "Theorem PQ.C01.roundtrip, the property's full statement over the models: for every field forest, history, page size >= 1 and codec with a correct decompressor, the reader model applied to the writer model's bytes reports Rows() = number of written records, Next() true exactly that many times, every Scan delivering the record's per-column entries (hence its projection), Error() nil (readAll_runWriter composed with schema_valid; extra hypothesis: joined column names pairwise distinct); layer theorems (levels, records, header, values incl. multi-page booleans, page, chunk). Tie: exact writer bytes and exact reader results on structurally enumerated and boundary-valued records of eight structs, partitions around page boundaries, page sizes, three codecs, single pages beyond 32 KiB, level streams of hundreds of values at every width, a 70 000-byte string. The two aliasing clauses are runtime facts explored by the harness only (mutation after Add, scanned records re-checked after later reads): partial.",
     PROOF_NOTE,
     "Lean 4 layer theorems + exact differential correspondence of writer and reader models", "DESIGN.md §6 C01")
 
